@@ -926,18 +926,18 @@ def run_server_fd(case, ctx):
 
 def subs(tier):
     out = [
-        Sub("interleave", run_interleave, strategy=case_strategy(False), quick=800, thorough=30000, shards_quick=8),
-        Sub("threads", run_threads, strategy=case_strategy(False), quick=600, thorough=20000, shards_quick=4,
+        Sub("interleave", run_interleave, strategy=case_strategy(False), quick=800, thorough=16000, shards_quick=8),
+        Sub("threads", run_threads, strategy=case_strategy(False), quick=600, thorough=10000, shards_quick=4,
             shards_thorough=8),
-        Sub("server", run_server, strategy=server_case, quick=320, thorough=6000, shards_quick=8),
+        Sub("server", run_server, strategy=server_case, quick=320, thorough=4000, shards_quick=8),
         Sub("server_fd", run_server_fd, strategy=server_fd_case, quick=64, thorough=1200, shards_quick=8),
-        Sub("server_sync", run_server, strategy=server_sync_case, quick=40, thorough=1000, shards_quick=8),
+        Sub("server_sync", run_server, strategy=server_sync_case, quick=40, thorough=600, shards_quick=8),
     ]
     if build.has_avx512():
         out += [
-            Sub("interleave512", run_interleave, strategy=case_strategy(True), quick=500, thorough=20000, shards_quick=4,
+            Sub("interleave512", run_interleave, strategy=case_strategy(True), quick=500, thorough=10000, shards_quick=4,
                 variant="avx512"),
-            Sub("threads512", run_threads, strategy=case_strategy(True), quick=300, thorough=10000, shards_quick=4,
+            Sub("threads512", run_threads, strategy=case_strategy(True), quick=300, thorough=5000, shards_quick=4,
                 shards_thorough=8, variant="avx512"),
         ]
     return out
